@@ -36,7 +36,8 @@ RULE = ('scenario = cfg x pre-edits x {plain, efi, efi+mac} sections with differ
         'non-trivial = geometry/offset/entry differ from the defaults or efi/mac sections exist')
 LEVEL_TEXT = ('Lean 4 theorems: _calc_cc (regenerated from isohybrid.py each run) pads to a whole cylinder (padding < cylinder; with EFI the least such padding holding the backup GPT) and '
               'cc = min(cylinders, 1024) for every geometry and size; partition bounds computed from an El Torito entry cover exactly '
-              'its sectors at 4 x sector; isohybrid.crc32 (table regenerated) is the bit-by-bit CRC-32 for every byte string. The '
+              'its sectors at 4 x sector; MBR CHS fields decode to the requested offset / last cylinder; GPT geometry (backup header in the last '
+              'sector, backup array inside the padding, ISO partition within the usable area) for every size and geometry; isohybrid.crc32 (table regenerated) is the bit-by-bit CRC-32 for every byte string. The '
               'byte layout and cross-structure consistency are decided by an independent decoder per scenario.')
 LEVEL_NOTE = 'Trusted: Lean kernel, py2lean, the independent system-area decoder.'
 TECHNIQUE = 'Lean 4 proofs (cylinder arithmetic, CRC-32 linearity) + independent MBR/GPT/APM decoder on generated hybrids'
@@ -104,8 +105,11 @@ def scenario(ctx, rng, tmpdir):
         hy['efi'] = True
     if variant == 'mac':
         hy['mac'] = True
-    if variant != 'plain' and hy['part_entry'] in (2, 3):
-        hy['part_entry'] = 1
+    # partition entry 2 with EFI (3 with Mac) is the slot of the EFI (Mac) partition: the library refuses the request
+    # (it used to accept it and write an image it could not open); the scenario then ends as a documented refusal
+    # El Torito EFI entries that the hybrid does not describe: a plain hybrid on an image with an EFI entry, an EFI
+    # hybrid (no Mac) on an image with two EFI entries
+    extra_efi = variant in ('plain', 'efi') and rng.random() < 0.25
     share_boot = variant != 'plain' and rng.random() < 0.15
     pre_step = rng.choice([None, None, None, 'write', 'force'])
 
@@ -116,9 +120,9 @@ def scenario(ctx, rng, tmpdir):
             iso = s.iso
             names = {}
             for key, n in (('boot', sizes['boot']), ('efi', sizes['efi']), ('mac', sizes['mac'])):
-                if key == 'efi' and variant == 'plain':
+                if key == 'efi' and variant == 'plain' and not extra_efi:
                     continue
-                if key == 'mac' and variant != 'mac':
+                if key == 'mac' and variant != 'mac' and not (variant == 'efi' and extra_efi):
                     continue
                 if key == 'efi' and share_boot:
                     names['efi'] = names['boot']       # the EFI entry uses the BIOS boot file itself
@@ -324,7 +328,7 @@ def scenario(ctx, rng, tmpdir):
     except Exception as e:  # noqa
         viol('C12.gen2/%s' % isoapi.exc_class(e), 'open + add_fp + write of the hybrid image raised %r' % e)
     nontriv = variant != 'plain' or (s_geo, h_geo) != (32, 64) or hy['part_entry'] != 1 or hy['part_offset'] != 0
-    ctx.count(key=seed, nontrivial=nontriv, kind='variant:' + variant, sample={'cfg': cfg, 'variant': variant, 'hybrid': hy, 'sizes': sizes, 'load': lsz, 'before_isohybrid': pre_step})
+    ctx.count(key=seed, nontrivial=nontriv, kind='variant:' + variant + ('+efi-entry' if extra_efi else ''), sample={'cfg': cfg, 'variant': variant, 'hybrid': hy, 'sizes': sizes, 'load': lsz, 'before_isohybrid': pre_step, 'extra_efi_entry': extra_efi})
 
 
 def second_generation(ctx, img2, hy, s_geo, h_geo, variant, viol):
